@@ -336,6 +336,22 @@ func checkLDAPStamp(tk *big.Int, boundary bool, i int) {
 			r.Violation("ldap.ConvertLDAPTimeStampToUnixTimeStamp:"+cls+":"+reg, fmt.Sprintf("%q -> %d want %d", s, got, wsec), cs)
 		}
 	})
+	// other decimal spellings of the same number (leading zeros, explicit plus sign)
+	if boundary || i%16 == 0 {
+		for k, alt := range decimalSpellings(tk) {
+			csa := map[string]any{"value": alt}
+			guard("ldap.ConvertLDAPTimeStampToUnixTimeStamp", csa, func() {
+				got := ldap.ConvertLDAPTimeStampToUnixTimeStamp(alt)
+				r.Eval(1)
+				if got != wsec && !(tk.Cmp(d1601) < 0 && got == 0) {
+					r.Violation("ldap.ConvertLDAPTimeStampToUnixTimeStamp:spelling", fmt.Sprintf("%q -> %d want %d (the same number written %q gives that)", alt, got, wsec, s), csa)
+				}
+			})
+			if boundary {
+				r.Nontrivial(fmt.Sprintf("ldap.stamp.spelling|%d|%s", k, s))
+			}
+		}
+	}
 	nontrivial("ldap.stamp", tk, d1601, boundary)
 	sampleEvery(i, 19997, func() any {
 		return map[string]any{"kind": "LDAP timestamp->unix", "value": s, "unix": wsec}
@@ -388,12 +404,42 @@ func checkLDAPDuration(v *big.Int, boundary bool, i int) {
 			r.Violation("ldap.ConvertLDAPDurationToSeconds:"+cls, fmt.Sprintf("%q -> %d want %s", s, got, want), cs)
 		}
 	})
+	if boundary || i%16 == 0 {
+		for _, alt := range decimalSpellings(v) {
+			csa := map[string]any{"value": alt}
+			guard("ldap.ConvertLDAPDurationToSeconds", csa, func() {
+				got := ldap.ConvertLDAPDurationToSeconds(alt)
+				r.Eval(1)
+				if big.NewInt(got).Cmp(want) != 0 {
+					r.Violation("ldap.ConvertLDAPDurationToSeconds:spelling", fmt.Sprintf("%q -> %d want %s (the same number written %q gives that)", alt, got, want, s), csa)
+				}
+			})
+		}
+	}
 	if boundary || v.Sign() < 0 || v.BitLen() > 40 {
 		r.Nontrivial("ldap.dur|" + new(big.Int).Rsh(v, 40).String())
 	}
 	sampleEvery(i, 19997, func() any {
 		return map[string]any{"kind": "LDAP duration->seconds", "value": s, "seconds": want.String()}
 	})
+}
+
+// decimalSpellings returns other base-10 spellings of v: leading zeros after the optional sign,
+// and an explicit plus sign for non-negative numbers.
+func decimalSpellings(v *big.Int) []string {
+	digits := new(big.Int).Abs(v).String()
+	sign := ""
+	if v.Sign() < 0 {
+		sign = "-"
+	}
+	out := []string{sign + "0" + digits, sign + "00000" + digits, sign + "00000000000000000000" + digits}
+	if v.Sign() >= 0 {
+		out = append(out, "+"+digits, "+0"+digits)
+	}
+	if v.Sign() == 0 {
+		out = append(out, "-0", "00")
+	}
+	return out
 }
 
 func checkLDAPSeconds(sec int64, boundary bool) {
@@ -442,7 +488,8 @@ func familyLDAP() {
 	r.Sample(map[string]any{"kind": "LDAP never-sentinel", "value": i64Hi.String(), "unix": func() int64 { s, _, _ := refInstant(i64Hi, d1601); return s }()})
 	r.Sample(map[string]any{"kind": "LDAP duration min-int64", "value": i64Lo.String(), "seconds": "922337203685"})
 	// malformed / out-of-range decimal strings: documented result 0
-	for _, s := range []string{"", "abc", "12x", "9223372036854775808", "-9223372036854775809", " 1", "1 ", "1.5", "0x10", "١٢٣", "99999999999999999999999999"} {
+	for _, s := range []string{"", "abc", "12x", "9223372036854775808", "-9223372036854775809", " 1", "1 ", "1.5", "0x10", "١٢٣", "99999999999999999999999999",
+		"0x7fffffffffffffff", "0X1F", "0b101", "0o17", "1_000", "1e3", "0x", "+", "-", "+-1", "--1", "1-", "0_1", "١", "１２３", "1\x00", "133920597255298050\n"} {
 		cs := map[string]any{"value": s}
 		guard("ldap.ConvertLDAPTimeStampToUnixTimeStamp", cs, func() {
 			if got := ldap.ConvertLDAPTimeStampToUnixTimeStamp(s); got != 0 {
@@ -676,6 +723,70 @@ func checkUUIDTicks(tk *big.Int, boundary bool, i int) {
 		}
 		r.Eval(1)
 	})
+	// the whole path a caller takes: time -> SetTime -> binary/text form -> parse -> GetTime, with
+	// the other fields of the structure holding any value of their Go types (the timestamp must
+	// not depend on them)
+	if boundary || i%8 == 0 {
+		x := u*0x9E3779B97F4A7C15 + uint64(i)
+		clock, ld, ldn, cseq := uint8(x>>8), uint8(x>>16), uint32(x>>24), uint16(x>>40)
+		if i%3 == 0 {
+			clock, cseq = 0xFF, 0xFFFF
+		}
+		var node [6]byte
+		for k := range node {
+			node[k] = byte(x >> (8 * k))
+		}
+		cs2 := map[string]any{"timestamp": tk.String(), "clock": clock, "local_domain": ld, "local_domain_number": ldn, "clock_seq": cseq, "node": fmt.Sprintf("%x", node)}
+		guard("uuid_v1.roundtrip", cs2, func() {
+			var a, b uuid_v1.UUIDv1
+			a.UUID.Variant = 0x8
+			a.SetClockSequence(cseq)
+			a.SetNodeID(node[:])
+			a.SetTime(wt)
+			var err error
+			if i%2 == 0 {
+				var m []byte
+				if m, err = a.Marshal(); err == nil {
+					_, err = b.Unmarshal(m)
+				}
+			} else {
+				err = b.FromString(a.String())
+			}
+			r.Eval(1)
+			if err != nil {
+				r.Violation("uuid_v1.roundtrip:time:error", fmt.Sprintf("timestamp %s does not survive format and parse: %v", tk, err), cs2)
+			} else if got := b.GetTime(); b.Time != u || !sameInstant(got, wsec, wnsec) {
+				r.Violation("uuid_v1.roundtrip:time:"+reg, fmt.Sprintf("timestamp %s set, formatted and parsed (clock_seq %#x): Time=%d GetTime()=%s want %s", tk, cseq, b.Time, fmtT(got), fmtRef(wsec, wnsec)), cs2)
+			}
+		})
+		guard("uuid_v2.roundtrip", cs2, func() {
+			var a, b uuid_v2.UUIDv2
+			a.UUID.Variant = 0x8
+			a.SetClock(clock)
+			a.SetLocalDomain(ld)
+			a.SetLocalDomainNumber(ldn)
+			a.SetNodeID(node[:])
+			a.SetTime(wt)
+			var err error
+			if i%2 == 0 {
+				var m []byte
+				if m, err = a.Marshal(); err == nil {
+					_, err = b.Unmarshal(m)
+				}
+			} else {
+				err = b.FromString(a.String())
+			}
+			r.Eval(1)
+			// a version-2 UUID carries the upper 28 bits of the timestamp (2^32 ticks, about 7
+			// minutes, resolution): exactly those bits must come back
+			want := u &^ 0xFFFFFFFF
+			if err != nil {
+				r.Violation("uuid_v2.roundtrip:time:error", fmt.Sprintf("timestamp %s does not survive format and parse: %v", tk, err), cs2)
+			} else if b.Time != want {
+				r.Violation("uuid_v2.roundtrip:time:"+reg, fmt.Sprintf("timestamp %s set, formatted and parsed (clock %#x, local domain %#x): Time=%#x want %#x", tk, clock, ld, b.Time, want), cs2)
+			}
+		})
+	}
 	nontrivial("uuid.ticks", tk, d1582, boundary)
 	sampleEvery(i, 19997, func() any {
 		return map[string]any{"kind": "UUID v1/v2 timestamp->time", "timestamp": tk.String(), "time": fmtRef(wsec, wnsec)}
